@@ -110,7 +110,7 @@ func init() {
 					runC13(c, p, doc, k%3 == 0)
 				},
 				Finish:   reportHooks,
-				Required: []string{"loc:map", "loc:list", "loc:none", "set:exact", "get:live"},
+				Required: []string{"loc:map", "accessor:held-across-other-retrievals", "loc:list", "loc:none", "set:exact", "get:live"},
 			}
 		},
 	})
@@ -175,6 +175,25 @@ func runC13Text(c *harness.Ctx, p *spec.Path, text, doc string, useNum bool) {
 		if !ok {
 			c.Violation("not-accessor "+key, "accessor mode returned something that is not an Accessor", det)
 			return
+		}
+		// accessors are HELD while other retrievals run (every second index): the same path on another copy of the document and a
+		// few fixed multi-valued paths on a matrix recycle whatever the library pools; the held accessor must still address its own
+		// location, and the other documents must stay as they are when it is used
+		var other, otherMatrix interface{}
+		if (i+c.K)%2 == 1 {
+			other = lib.Decode(doc, useNum)
+			lib.Retrieve(text, other, cfg)
+			otherMatrix = lib.Decode(`[[1,2,3],[4,5,6],{"a":[7,8],"b":{"c":9}}]`, useNum)
+			for _, t := range []string{"$[0:2]", "$[*][0,1]", "$..*", "$[2].*", "$[::-1]"} {
+				lib.Retrieve(t, otherMatrix, cfg)
+			}
+			c.Cover("accessor:held-across-other-retrievals")
+			defer func(i int) {
+				if !lib.Same(other, lib.Decode(doc, useNum)) || !lib.Same(otherMatrix, lib.Decode(`[[1,2,3],[4,5,6],{"a":[7,8],"b":{"c":9}}]`, useNum)) {
+					c.Violation(fmt.Sprintf("set-other-document %s [%d]", key, i), "using an accessor changed ANOTHER document (one retrieved after the accessor was handed out)",
+						map[string]interface{}{"path": text, "document": doc, "index": i, "other_copy_after": lib.JS(other), "matrix_after": lib.JS(otherMatrix)})
+				}
+			}(i)
 		}
 		loc := wres[i].Loc
 		ikey := fmt.Sprintf("%s [%d]", key, i)
